@@ -272,14 +272,15 @@ pub fn set_preference(name: String, value: String) -> Result<()> {
             }
         }
         let lower_case_value = value.to_lowercase();
-        if lower_case_value == "true" || lower_case_value == "false" {
-            pref_manager.set_api_boolean_pref(&name, value.to_lowercase() == "true");
-        } else {
-            match name.as_str() {
-                "Pitch" | "Rate" | "Volume" | "CapitalLetters_Pitch" | "MathRate" | "PauseFactor" => {
-                    pref_manager.set_api_float_pref(&name, to_float(&name, &value)?)
-                }
-                _ => {
+        match name.as_str() {
+            "Pitch" | "Rate" | "Volume" | "CapitalLetters_Pitch" | "MathRate" | "PauseFactor" => {
+                pref_manager.set_api_float_pref(&name, to_float(&name, &value)?)
+            }
+            _ => {
+                // only a preference that holds a boolean is stored as one; an unknown name is an error
+                if (lower_case_value == "true" || lower_case_value == "false") && pref_manager.is_boolean_pref(&name)? {
+                    pref_manager.set_api_boolean_pref(&name, lower_case_value == "true");
+                } else {
                     pref_manager.set_string_pref(&name, &value)?;
                 }
             }
